@@ -59,17 +59,21 @@ NL(o, i, m) == CSub(CR(Mul(InvSqrt2, Re2(o, "USm", m, 0)), CAdd(CR(o.gY, CConj(E
                     CR(Mul(o.ymu, Re2(o, "USm", m, 1)), CConj(El(o, "ZN", i, 2))))
 NR(o, i, m) == CR(OfInt(-1), CAdd(CR(Mul(Mul(Sqrt2, o.gY), Re2(o, "USm", m, 1)), El(o, "ZN", i, 0)),
                                    CR(Mul(o.ymu, Re2(o, "USm", m, 0)), El(o, "ZN", i, 2))))
-AAN(o, i, m) == Add(CAbs2(NL(o, i, m)), CAbs2(NR(o, i, m)))
-BBN(o, i, m) == K(2, CMul(CConj(NL(o, i, m)), NR(o, i, m))[1])
-\* the two terms of (i, m), times 12 m_m^2 * 16 pi^2 / 1
-Chi0A(o, at, i, m) == Neg(Mul(Mul(Sq(o.MM), AAN(o, i, m)), at["F1N_" \o Dig(i) \o Dig(m)]))
-Chi0B(o, at, i, m) == K(-2, Mul(Mul(Mul(o.MM, o["MChi_" \o Dig(i) \o "0"]), BBN(o, i, m)), at["F2N_" \o Dig(i) \o Dig(m)]))
-Chi0T(o, at, m) == LET t(i) == Add(Chi0A(o, at, i, m), Chi0B(o, at, i, m)) IN SumTo(t, 3)
-Chi0S(o, at, m) == LET t(i) == Add(Abs(Chi0A(o, at, i, m)), Abs(Chi0B(o, at, i, m))) IN SumTo(t, 3)
+\* the two terms of (i, m), times 12 m_m^2 * 16 pi^2, computed once per (i, m)
+Chi0Terms(o, at) ==
+  [i \in 0..3, m \in 0..1 |->
+     LET nl == NL(o, i, m)  nr == NR(o, i, m)
+         aan == Add(CAbs2(nl), CAbs2(nr))
+         bbn == K(2, CMul(CConj(nl), nr)[1])
+     IN << Neg(Mul(Mul(Sq(o.MM), aan), at["F1N_" \o Dig(i) \o Dig(m)])),
+           K(-2, Mul(Mul(Mul(o.MM, o["MChi_" \o Dig(i) \o "0"]), bbn), at["F2N_" \o Dig(i) \o Dig(m)])) >>]
 Pi2x192 == K(192, Sq(PiS))
-Chi0Frac(o, at, T(_, _, _)) ==
+\* sums over i of the terms (abs = FALSE) or of their magnitudes (abs = TRUE), combined over the two smuons
+Chi0Frac(o, tm, abs) ==
   LET m0 == Sq(o["MSm_00"])  m1 == Sq(o["MSm_10"])
-  IN Frac(Add(Mul(T(o, at, 0), m1), Mul(T(o, at, 1), m0)), Mul(Pi2x192, Mul(m0, m1)))
+      v(x) == IF abs THEN Abs(x) ELSE x
+      T(m) == LET t(i) == Add(v(tm[i, m][1]), v(tm[i, m][2])) IN SumTo(t, 3)
+  IN Frac(Add(Mul(T(0), m1), Mul(T(1), m0)), Mul(Pi2x192, Mul(m0, m1)))
 
 CL(o, k) == CR(Neg(o.g2), CConj(El(o, "UP", k, 0)))
 CRt(o, k) == CR(o.ymu, El(o, "UM", k, 1))
@@ -83,11 +87,13 @@ ChaAbs(o, at) == Frac(SumSeq(<<Abs(ChaA(o, at, 0)), Abs(ChaB(o, at, 0)), Abs(Cha
 MssmInvs(ev) ==
   LET o == ev.o  at == ev.at
       fin == AllFin(<<o.aChi0, o.aChipm, o.a1L>>)
-      s0 == Chi0Frac(o, at, Chi0S)   sc == ChaAbs(o, at)
+      tm == Chi0Terms(o, at)
+      f0 == Chi0Frac(o, tm, FALSE)   s0 == Chi0Frac(o, tm, TRUE)
+      fc == ChaFrac(o, at)           sc == ChaAbs(o, at)
   IN << I("Finite", fin) >> \o
-     (IF fin THEN << I("Neutralino", CloseTo(o.aChi0, Chi0Frac(o, at, Chi0T), s0)),
-                     I("Chargino", CloseTo(o.aChipm, ChaFrac(o, at), sc)),
-                     I("Total", CloseTo(o.a1L, FAdd(Chi0Frac(o, at, Chi0T), ChaFrac(o, at)), FAdd(s0, sc))) >>
+     (IF fin THEN << I("Neutralino", CloseTo(o.aChi0, f0, s0)),
+                     I("Chargino", CloseTo(o.aChipm, fc, sc)),
+                     I("Total", CloseTo(o.a1L, FAdd(f0, fc), FAdd(s0, sc))) >>
       ELSE << >>)
 
 \* ---- THDM ---------------------------------------------------------------------------------------------------
